@@ -120,7 +120,9 @@ INT_POOL = [I64_MIN, I64_MIN + 1, -1, 0, 1, 2, 7, 255, 256, I64_MAX - 1, I64_MAX
 BYTES_POOL = [b"", b"a", b"A", b"ab", b"abc", b"abd", b"b", b"\x00", b"\xff", b"\xff\xfe", b"a\x00b",
               "é".encode(), b"hello world", b"Hello", b"x" * 17, b"abcabcabd"]
 V4_POOL = [0, 1, 0x0A000001, 0x7F000001, 0xC0A80001, 0xFFFFFFFE, 0xFFFFFFFF]
-V6_POOL = [0, 1, 0xFFFF00000000 | 0x0A000001, 1 << 64, (0x20010DB8 << 96) | 1, (1 << 128) - 1]
+# three of the eight are IPv4-mapped (::ffff:a.b.c.d): the addresses a "canonicalising" conversion would change
+V6_POOL = [0, 1, 0xFFFF00000000 | 0x0A000001, 0xFFFF00000000, 0xFFFF00000000 | 0xFFFFFFFF, 1 << 64,
+           (0x20010DB8 << 96) | 1, (1 << 128) - 1]
 KEY_POOL = [b"", b"a", b"b", b"host", b"Host", "é".encode(), b"k1", b"k2"]
 # patterns for the "regex" feature: no '"' inside a class, no trailing backslash, ASCII only (the
 # model's regex subset, see C11)
